@@ -45,6 +45,7 @@ class Gen:
             self.weights.pop(a, None)  # entries that are not operation names are generator switches
         self._names = list(self.weights)
         self._w = [self.weights[n] for n in self._names]
+        self._queue: list = []  # planned multi-call sequences (drawn as one unit, returned one call at a time)
 
     # ---- selectors --------------------------------------------------------------------------
     def h(self) -> bool:
@@ -153,6 +154,8 @@ class Gen:
             return self._graph()
         if len(w.nodes) < 2:
             return self._node()
+        if self._queue:
+            return self._queue.pop(0)
         kind = rng.choices(self._names, self._w)[0]
         return getattr(self, "_" + kind)()
 
@@ -386,6 +389,27 @@ class Gen:
     def _io_append(self):
         c, wh = self.any_c(), self._which()
         return ["io_append", c, wh, self._io_value(c, wh)]
+
+    def _io_readopt(self):
+        """Planned sequence: a value leaves one graph's inputs/outputs, is adopted by another graph, and is
+        then offered back to the first list in a multi-element call AFTER an acceptable fresh value - the
+        list has seen the value before (stale bookkeeping) but must reject it now without touching the
+        fresh one."""
+        rng, w = self.rng, self.w
+        conts = w.containers()
+        if len(conts) < 2:
+            return self._io_extend()
+        a = rng.randrange(len(conts))
+        b = rng.choice([i for i in range(len(conts)) if i != a])
+        wh = self._which()
+        v = self._io_member(a, wh)
+        fresh = self.free_v()
+        how = rng.choice(["extend", "extend", "setslice", "iadd"])
+        tail = {"extend": ["io_extend", a, wh, [fresh, v]],
+                "iadd": ["io_iadd", a, wh, [fresh, v]],
+                "setslice": ["io_setslice", a, wh, 0, 0, [fresh, v]]}[how]
+        self._queue = [["io_append", b, wh, v], tail]
+        return ["io_remove", a, wh, v]
 
     def _io_extend(self):
         c, wh = self.any_c(), self._which()
@@ -647,7 +671,7 @@ DEFAULT_WEIGHTS = {
     "val": 5, "node": 8, "node_it": 1.2, "graph": 2.5, "func": 0.6, "attr_graph": 1, "attr_set": 0.5, "attr_del": 0.5,
     "append": 4, "extend": 3, "ins_before": 3, "ins_after": 3, "remove": 4, "sort": 1.5, "n_prepend": 1, "n_append": 1,
     "rin": 5, "rsz_in": 2, "rsz_out": 3, "rauw": 3, "c_rauw": 2, "c_rnv": 1.5,
-    "io_append": 3, "io_extend": 3, "io_insert": 3, "io_pop": 2.5, "io_remove": 2.5, "io_clear": 0.8, "io_set": 3,
+    "io_append": 3, "io_extend": 3, "io_readopt": 0.8, "io_insert": 3, "io_pop": 2.5, "io_remove": 2.5, "io_clear": 0.8, "io_set": 3,
     "io_setslice": 2.5, "io_setslice3": 1.6, "io_delslice3": 1.0, "io_del": 2.5, "io_delslice": 2, "io_reverse": 0.7, "io_iadd": 0.5,
     "in_set": 3, "in_add": 3, "in_reg": 2, "in_del": 2, "in_pop": 2, "in_popitem": 1, "in_clear": 0.6, "in_update": 2,
     "in_setdefault": 1.5,
